@@ -54,8 +54,8 @@ Edits ==
     {[k |-> "AddStructure", name |-> NewS]}
     \cup {[k |-> "AddProperty", target |-> t, name |-> n, ty |-> ty, optional |-> o] :
             t \in Targets \cup {NewS}, n \in PropNames, ty \in TyNames, o \in BOOLEAN}
-    \cup {[k |-> "AddExtends", target |-> NewS, parent |-> p] : p \in {"Position", "WorkDoneProgressParams"}}
-    \cup {[k |-> "AddMixin", target |-> NewS, parent |-> p] : p \in {"PartialResultParams", "WorkDoneProgressParams"}}
+    \cup {[k |-> "AddExtends", target |-> NewS, parent |-> p] : p \in {"Position", "WorkDoneProgressParams", "HoverParams"}}
+    \cup {[k |-> "AddMixin", target |-> NewS, parent |-> p] : p \in {"PartialResultParams", "WorkDoneProgressParams", "HoverOptions"}}   \* HoverOptions has a mixin of its own
     \cup {[k |-> "AddEnum", name |-> NewE, base |-> b] : b \in {"string", "uinteger"}}
     \cup {[k |-> "AddEnumValue", target |-> e] : e \in {"MarkupKind", "SymbolKind", NewE}}
     \cup {[k |-> "AddRequest", typed |-> ty, params |-> p, result |-> r] :
